@@ -39,3 +39,7 @@ func vhInSet(c byte, set string) bool {
 	}
 	return false
 }
+
+// alphabet of context value bytes where the property under test does not depend on the bytes: upper,
+// lower, digit (incl. the falsy "0"), blank, HTML specials, NUL, a 2-byte UTF-8 sequence and an invalid byte
+const vhValAlphabet = "aZ0 <&\x00\xc3\xa9\xff"
